@@ -50,6 +50,7 @@ pub mod policy {
         pub use crate::util::linear_scan::Region;
     }
     pub use crate::policy::marksweepspace::native_ms::verif as native_ms;
+    pub use crate::policy::largeobjectspace::verif_test_and_mark as los_test_and_mark;
     #[cfg(feature = "vo_bit")]
     pub use crate::policy::largeobjectspace::verif_find_object_from_internal_pointer as los_find_object_from_internal_pointer;
 }
